@@ -26,7 +26,7 @@ Fixpoint py_target_ok (t : tgt) : bool :=
   match t with TName _ => true | TConst => false | TTuple l => forallb py_target_ok l end.
 
 Inductive stmt :=
-| SAssignT (t : tgt)                              (* {% set T = x %} / {% for T in x %} *)
+| SAssignT (scoped : bool) (t : tgt)              (* {% set T = x %} (false) / {% for T in x %}{% endfor %} (true) *)
 | SText
 | SBreak
 | SContinue
@@ -34,7 +34,9 @@ Inductive stmt :=
 | SUse (n : name)                                 (* an output that loads the name n *)
 | SIf (body els : list stmt)
 | SFor (recursive : bool) (body els : list stmt)
-| SInline (body : list stmt)                      (* with / filter block / block set / scope / autoescape *)
+| SInline (w : bool) (body : list stmt)           (* with (true) / filter block, block set, scope (false): an inner frame *)
+| SSame (body : list stmt)                        (* ScopedEvalContextModifier: body compiled in the very same frame
+                                                     (the autoescape tag wraps it in a Scope: SInline false [SSame b]) *)
 | SMacro (params : list name) (body : list stmt)
 | SCallBlock (params : list name) (kws : list name) (body : list stmt)
 | SBlock (body : list stmt).                      (* {% block %}: compiled into its own function *)
@@ -56,6 +58,7 @@ Fixpoint memb (x : name) (l : list name) : bool :=
   match l with [] => false | y :: r => (x =? y) || memb x r end.
 Fixpoint nodupb (l : list name) : bool :=
   match l with [] => true | x :: r => negb (memb x r) && nodupb r end.
+Definition disjb (a b : list name) : bool := forallb (fun x => negb (memb x b)) a.
 
 (* the special macro variables caller / kwargs / varargs; the code generator appends them (in
    this order) to the parameter list when the body loads them (compiler.find_undeclared, which
@@ -63,23 +66,44 @@ Fixpoint nodupb (l : list name) : bool :=
 Definition CALLER : name := 1.
 Definition KWARGS : name := 2.
 Definition VARARGS : name := 3.
+(* keywords the code generator adds to an emitted call by itself (compiler.visit_Call):
+   caller=caller for the call of a call block, _loop_vars=_loop_vars when the frame is a loop
+   frame, _block_vars=_block_vars when it is a block frame.  Frame.loop_frame / block_frame are
+   set on the frame of a loop body / block function, kept by soft frames (if) and by tags that
+   reuse the frame (autoescape), and reset by Frame.inner() (with, filter, block set, macro,
+   call block, loop else) *)
+Definition LOOPVARS : name := 4.
+Definition BLOCKVARS : name := 5.
+Definition extras (fc lf bf : bool) : list name :=
+  (if fc then [CALLER] else []) ++ (if lf then [LOOPVARS] else []) ++ (if bf then [BLOCKVARS] else []).
 
 (* compiler.UndeclaredNameVisitor over a macro body, in document order: a load of a tracked name
-   marks it found; any other occurrence of a name (a parameter of a nested macro / call block, an
-   assignment target) stops tracking it; blocks are not entered; the visit stops once every
-   tracked name is found.  State: (tracked, found, stopped). *)
+   marks it found; any other occurrence of a name (an assignment target) stops tracking it; blocks
+   are not entered; the visit stops once every tracked name is found.  A nested scope (the body of
+   a for loop with its target, its else branch, a macro or call block with its parameters, a with
+   block with its targets) is visited by a fresh visitor that starts from the names tracked at that
+   point: what it stops tracking is forgotten when the scope ends, what it found is added, and the
+   outer visit stops when everything still tracked has been found.  State: (tracked, found, stopped). *)
 Definition ustate := (list name * list name * bool)%type.
 Definition remove_name (n : name) (l : list name) : list name := filter (fun m => negb (m =? n)) l.
 Definition subsetb (a b : list name) : bool := forallb (fun x => memb x b) a.
+Definition add_name (n : name) (l : list name) : list name := if memb n l then l else n :: l.
 Definition u_load (n : name) (u : ustate) : ustate :=
   let '(tr, fo, st) := u in
   if st then u else
   if memb n tr then
-    let fo' := if memb n fo then fo else n :: fo in
+    let fo' := add_name n fo in
     (tr, fo', subsetb tr fo' && subsetb fo' tr)
   else u.
 Definition u_store (n : name) (u : ustate) : ustate :=
   let '(tr, fo, st) := u in if st then u else (remove_name n tr, fo, st).
+Definition u_stores (ns : list name) (u : ustate) : ustate := fold_left (fun u n => u_store n u) ns u.
+(* _visit_scope: [run] is the visit of the scope's children by the inner visitor *)
+Definition u_scope (run : ustate -> ustate) (u : ustate) : ustate :=
+  let '(tr, fo, st) := u in
+  if st then u else
+  let fo' := fold_left (fun acc n => add_name n acc) (snd (fst (run (tr, [], false)))) fo in
+  (tr, fo', subsetb tr fo').
 Fixpoint tgt_names (t : tgt) : list name :=
   match t with TName n => [n] | TConst => [] | TTuple l => flat_map tgt_names l end.
 
@@ -88,10 +112,13 @@ Fixpoint uscan (s : stmt) (u : ustate) {struct s} : ustate :=
     match l with [] => u | x :: r => uscans r (uscan x u) end in
   match s with
   | SUse n => u_load n u
-  | SAssignT t => fold_left (fun u n => u_store n u) (tgt_names t) u
-  | SIf b e | SFor _ b e => uscans e (uscans b u)
-  | SInline b => uscans b u
-  | SMacro ps b | SCallBlock ps _ b => uscans b (fold_left (fun u n => u_store n u) ps u)
+  | SAssignT false t => u_stores (tgt_names t) u
+  | SAssignT true t => u_scope (fun v => v) (u_scope (u_stores (tgt_names t)) u)
+  | SIf b e => uscans e (uscans b u)
+  | SFor _ b e => u_scope (uscans e) (u_scope (uscans b) u)
+  | SInline true b => u_scope (uscans b) u
+  | SInline false b | SSame b => uscans b u
+  | SMacro ps b | SCallBlock ps _ b => u_scope (fun v => uscans b (u_stores ps v)) u
   | SBlock _ => u
   | _ => u
   end.
@@ -104,59 +131,66 @@ Definition specials (ps : list name) (body : list stmt) : list name :=
 
 Section Gen.
 
-  Fixpoint gen (in_loop : bool) (s : stmt) {struct s} : res (list py) :=
-    let gens := fix gens (il : bool) (l : list stmt) {struct l} : res (list py) :=
+  (* il : Frame.in_loop_body;  lf : Frame.loop_frame;  bf : Frame.block_frame.
+     A call whose explicit keywords collide with the keywords the generator adds itself is
+     refused by CodeGenerator.signature (TemplateAssertionError). *)
+  Definition gen_call (fc lf bf : bool) (kws : list name) : res (list py) :=
+    if nodupb kws && disjb kws (extras fc lf bf) then Ok [PCall (kws ++ extras fc lf bf)] else SyntaxErr.
+
+  Fixpoint gen (il lf bf : bool) (s : stmt) {struct s} : res (list py) :=
+    let gens := fix gens (il lf bf : bool) (l : list stmt) {struct l} : res (list py) :=
       match l with
       | [] => Ok []
-      | x :: r => match gen il x, gens il r with
+      | x :: r => match gen il lf bf x, gens il lf bf r with
                   | Ok a, Ok b => Ok (a ++ b)
                   | _, _ => SyntaxErr
                   end
       end in
     match s with
-    | SAssignT t => if can_assign t then Ok [PAssign t] else SyntaxErr
+    | SAssignT _ t => if can_assign t then Ok [PAssign t] else SyntaxErr
     | SText => Ok [PSimple]
-    | SBreak => if in_loop then Ok [PBreak] else SyntaxErr
-    | SContinue => if in_loop then Ok [PContinue] else SyntaxErr
-    | SCallKw kws => if nodupb kws then Ok [PCall kws] else SyntaxErr
+    | SBreak => if il then Ok [PBreak] else SyntaxErr
+    | SContinue => if il then Ok [PContinue] else SyntaxErr
+    | SCallKw kws => gen_call false lf bf kws
     | SUse _ => Ok [PSimple]
-    | SIf b e => match gens in_loop b, gens in_loop e with
+    | SIf b e => match gens il lf bf b, gens il lf bf e with
                  | Ok pb, Ok pe => Ok [PIf pb; PIf pe]
                  | _, _ => SyntaxErr
                  end
-    | SFor false b e => match gens true b, gens in_loop e with
+    | SFor false b e => match gens true true false b, gens il false false e with
                         | Ok pb, Ok pe => Ok [PFor pb; PIf pe]
                         | _, _ => SyntaxErr
                         end
-    | SFor true b e => match gens true b, gens false e with
+    | SFor true b e => match gens true true false b, gens false false false e with
                        | Ok pb, Ok pe => Ok [PDef [] [PFor pb; PIf pe]; PSimple]
                        | _, _ => SyntaxErr
                        end
-    | SInline b => gens in_loop b
+    | SInline _ b => gens il false false b
+    | SSame b => gens il lf bf b
     | SMacro ps b =>
         if nodupb ps then
-          match gens false b with
+          match gens false false false b with
           | Ok pb => Ok [PDef (ps ++ specials ps b) pb; PSimple]
           | SyntaxErr => SyntaxErr
           end
         else SyntaxErr
     | SCallBlock ps kws b =>
-        if nodupb ps && nodupb kws then
-          match gens false b with
-          | Ok pb => Ok [PDef (ps ++ specials ps b) pb; PCall kws]
-          | SyntaxErr => SyntaxErr
+        if nodupb ps then
+          match gens false false false b, gen_call true lf bf kws with
+          | Ok pb, Ok pc => Ok (PDef (ps ++ specials ps b) pb :: pc)
+          | _, _ => SyntaxErr
           end
         else SyntaxErr
-    | SBlock b => match gens false b with
+    | SBlock b => match gens false false true b with
                   | Ok pb => Ok [PDef [] pb; PSimple]
                   | SyntaxErr => SyntaxErr
                   end
     end.
 
-  Fixpoint gens (il : bool) (l : list stmt) : res (list py) :=
+  Fixpoint gens (il lf bf : bool) (l : list stmt) : res (list py) :=
     match l with
     | [] => Ok []
-    | x :: r => match gen il x, gens il r with
+    | x :: r => match gen il lf bf x, gens il lf bf r with
                 | Ok a, Ok b => Ok (a ++ b)
                 | _, _ => SyntaxErr
                 end
